@@ -2,9 +2,10 @@
    ExtrOcamlBasic only: bool, option, list, prod, unit, sumbool map to OCaml's;
    nat, N, Z, positive keep their Coq definitions.  No Extract Constant. *)
 From Coq Require Extraction ExtrOcamlBasic.
-From SV Require Import Base Regex Calendar Inputs Tree IR Match AttrPat Cache.
+From SV Require Import Base Regex Calendar Inputs Tree IR Match AttrPat Cache Parser Diag.
 From SV.gen Require Import RegexGen PureGen ConstGen.
 Extraction Language OCaml.
 Extraction "sv.ml" pattern_table rmatch rsearch finditer
   parse_value match_range validate_day validate_week iso_weeks
-  api_match api_select api_filter api_closest bidi_of extended_language_filter attr_template lru_trace.
+  api_match api_select api_filter api_closest bidi_of extended_language_filter attr_template lru_trace
+  compile css_unescape escape parse_anb get_pattern_context line_col pretty.
